@@ -445,6 +445,35 @@ def g_add_shipped(rng):
     return [getattr(K, rng.choice(pool)), G.rand_date(rng)]
 
 
+def derived_trans(rng):
+    """a parameter set the CALLER owns: a shipped dated set re-referenced to another epoch (`t + date`), possibly
+    negated or re-referenced again — its `tf_sd` is whatever the library handed out for it"""
+    dated = [n for n in G.TRANS_NAMES if isinstance(getattr(K, n).ref_epoch, datetime.date)]
+    with_sd = [n for n in dated if isinstance(getattr(K, n).tf_sd, K.TransformationSD)]
+    pool = with_sd if (with_sd and rng.random() < 0.8) else dated
+    t1 = getattr(K, rng.choice(pool)) + G.rand_date(rng)
+    r = rng.random()
+    if r < 0.25:
+        t1 = -t1
+    elif r < 0.4:
+        t1 = t1 + G.rand_date(rng)
+    return t1
+
+
+def g_conform14_derived(rng):
+    x, y, z = G.rand_xyz(rng, 1e7)
+    return [x, y, z, G.rand_date(rng), derived_trans(rng), G.rand_psd(rng) if rng.random() < 0.8 else None]
+
+
+def g_conform7_derived(rng):
+    x, y, z = G.rand_xyz(rng, 1e7)
+    return [x, y, z, derived_trans(rng), G.rand_psd(rng) if rng.random() < 0.8 else None]
+
+
+def g_add_derived(rng):
+    return [derived_trans(rng), G.rand_date(rng)]
+
+
 # --- a small synthetic NTv2 grid (one sub-grid, 11 x 11 nodes of 1 degree, lat -40..-30, lon 140..150)
 def _rec(name, payload):
     return name.encode('ascii').ljust(8, b' ')[:8] + payload
@@ -521,6 +550,11 @@ def build_entries():
               apply_shipped, shipped_args, 4.0),
         Entry('Transform.conform14_shipped', ['transform.conform14'], TF.conform14, g_conform14_shipped, 3.0),
         Entry('Transform.ntv2_2d', ['transform.ntv2_2d'], TF.ntv2_2d, g_ntv2, 1.0),
+        # parameter sets owned by the caller (results of re-referencing) as arguments
+        Entry('Transform.conform14_derived', ['transform.conform14'], TF.conform14, g_conform14_derived, 2.0),
+        Entry('Transform.conform7_derived', ['transform.conform7'], TF.conform7, g_conform7_derived, 2.0),
+        Entry('Constants.Transformation.add_derived', [T + '__add__'], lambda t, d: t + d, g_add_derived, 2.0),
+        Entry('Constants.Transformation.neg_derived', [T + '__neg__'], lambda t: -t, lambda r: [derived_trans(r)], 1.0),
     ]
     return E
 
